@@ -13,7 +13,7 @@ import re
 
 import vlib
 from vlib import glist
-from checks.C09 import g_obs, g_nl, g_ic, g_hdr
+from checks.C09 import g_obs, g_nl, g_ic, g_hdr, coqchk
 
 PID = "C11"
 
@@ -240,6 +240,7 @@ def run(ctx):
 
 def run_inner(ctx):
     ctx.proofs(["Proofs/CrashProofs", "Proofs/ChainLedgerProofs"], model_targets=["ChainLedger", "Crash"])
+    coqchk(ctx, PID)
     exe, err = vlib.build_harness("crash")
     if exe is None:
         ctx.broken("harness-build", err)
@@ -305,6 +306,10 @@ def run_inner(ctx):
 
 def replay(ctx, path):
     obj = json.load(open(path))
+    if "case" not in obj:
+        print(json.dumps(dict(note="this replay names a broken obligation / tie, not an input; re-run ./check C11",
+                              broken=obj.get("broken"), message=(obj.get("message") or "")[:400])))
+        return 1
     exe, err = vlib.build_harness("crash")
     if exe is None:
         print("harness build failed", err)
